@@ -1,18 +1,127 @@
-/* env/ghost_sbview.h - environment of the C08 child-list surgery jobs (obligations/C08/sb_surgery.c).
- * REAL code in these jobs: signature_builder.c, tlv.c (KSI_TLV_new/free/getNestedList/replaceNestedTlv/appendNestedTlv/getTag),
- * list.c (the list the children live in).  The view (spec/sb_view.h) is read directly out of the real list array.
- * ASSUMED (stubs below): the template serializer KSI_TlvTemplate_construct (C09/C10), reference counting of the typed
- * records (counting stubs), the raw-payload reader KSI_FTLV_memRead (refuses: a base TLV whose children have not been
- * expanded is only followed on the empty-payload path). */
+/* env/ghost_sbview.h - environment of the child-list surgery jobs (obligations/C08/sb_surgery.c, sb_pubrec.c; C11 sb_append).
+ * REAL code in these jobs: the signature_builder.c / signature.c functions under test and tlv.c (KSI_TLV_new / _free /
+ * _getNestedList / _replaceNestedTlv / _appendNestedTlv / _getTag run as they are; include this file AFTER "tlv.c").
+ * MODEL: the LIST the children live in.  It is a ghost array view (identities; the tags sit in the real TLV objects) with
+ * the call-backs of a KSI_LIST(KSI_TLV); every call-back behaves as list.h documents and as list.c implements it
+ * (list.c:59-332; the jobs C19.list_append / _remove / _insertAt / _replace_elementAt check the real functions against
+ * the same array view, bounded capacity 4).  Loops of the model run over CONCRETE indices 0..SBV_MAX-1 (guards symbolic),
+ * which is what makes children <= 6 with arbitrary tags tractable (the real list.c shifts with symbolic indices: > 4 min).
+ * ASSUMED besides the list: the template serializer KSI_TlvTemplate_construct (C09/C10; records its arguments, arbitrary
+ * status), reference counting of the typed records (counting stubs), KSI_FTLV_memRead (refuses: a base TLV whose children
+ * are not expanded is followed only with an empty payload). */
 #ifndef ENV_GHOST_SBVIEW_H
 #define ENV_GHOST_SBVIEW_H
 #include "spec/sb_view.h"
 #include "fast_tlv.h"
 
+#ifndef SB_MAX_CHILDREN
+#define SB_MAX_CHILDREN 6
+#endif
+
+/* ---- model list ---------------------------------------------------------------------------------------------------- */
+struct sbl_list {
+	struct KSI_TLV_list_st fn;        /* what the code sees (first member: the code's list pointer is &fn) */
+	size_t n; KSI_TLV *id[SBV_MAX];   /* the array view */
+	_Bool hasArray;                   /* list.c: a list that never held an element has no slot array */
+	_Bool growFails;                  /* the next growth of the slot array fails (OUT_OF_MEMORY) */
+	size_t cap;                       /* slots allocated (growth when n + 1 > cap) */
+	_Bool live;
+};
+#define SBL_LISTS 2                   /* [0] the child list of the base TLV, [1] a list made on the way by KSI_List_new */
+static struct sbl_list g_sbl[SBL_LISTS];
+static unsigned g_sbl_new_calls, g_sbl_free_calls, g_sbl_elem_free_calls;
+
+static struct sbl_list *sbl_of(KSI_LIST(KSI_TLV) *l) {
+	__CPROVER_assert(l == &g_sbl[0].fn || l == &g_sbl[1].fn, "MACHINERY: list call-back on a model list");
+	return l == &g_sbl[0].fn ? &g_sbl[0] : &g_sbl[1];
+}
+static size_t sbl_length(KSI_LIST(KSI_TLV) *l) { return l == NULL ? 0 : sbl_of(l)->n; }                  /* list.c:289 */
+static int sbl_elementAt(KSI_LIST(KSI_TLV) *l, size_t pos, KSI_TLV **o) {                                /* list.c:260 */
+	struct sbl_list *m; size_t i;
+	if (l == NULL || o == NULL) return KSI_INVALID_ARGUMENT;
+	m = sbl_of(l);
+	if (!m->hasArray) return KSI_INVALID_STATE;
+	if (pos >= m->n) return KSI_BUFFER_OVERFLOW;
+	for (i = 0; i < SBV_MAX; i++) if (i == pos) *o = m->id[i];
+	return KSI_OK;
+}
+static int sbl_remove(KSI_LIST(KSI_TLV) *l, size_t pos, KSI_TLV **o) {                                   /* list.c:293 */
+	struct sbl_list *m; size_t i; KSI_TLV *e = NULL;
+	if (l == NULL) return KSI_INVALID_ARGUMENT;
+	m = sbl_of(l);
+	if (!m->hasArray) return KSI_INVALID_STATE;
+	if (pos >= m->n) return KSI_INVALID_ARGUMENT;
+	for (i = 0; i < SBV_MAX; i++) if (i == pos) e = m->id[i];
+	if (o != NULL) *o = e; else if (m->fn.obj_free != NULL) { g_sbl_elem_free_calls++; m->fn.obj_free(e); }
+	for (i = 0; i + 1 < SBV_MAX; i++) if (i >= pos && i + 1 < m->n) m->id[i] = m->id[i + 1];
+	m->n--;
+	for (i = 0; i < SBV_MAX; i++) if (i == m->n) m->id[i] = NULL;
+	return KSI_OK;
+}
+static int sbl_append(KSI_LIST(KSI_TLV) *l, KSI_TLV *e) {                                                /* list.c:59 */
+	struct sbl_list *m; size_t i;
+	if (l == NULL) return KSI_INVALID_ARGUMENT;
+	m = sbl_of(l);
+	if (m->n + 1 > m->cap) {
+		if (m->growFails) return KSI_OUT_OF_MEMORY;
+		m->cap += 10; m->hasArray = 1;
+	}
+	__CPROVER_assert(m->n < SBV_MAX, "MACHINERY: capacity of the model list");
+	for (i = 0; i < SBV_MAX; i++) if (i == m->n) m->id[i] = e;
+	m->n++;
+	return KSI_OK;
+}
+static int sbl_find(KSI_LIST(KSI_TLV) *l, KSI_TLV *e, int *found, size_t *pos) {                         /* list.c:113 */
+	struct sbl_list *m; size_t i, k;
+	if (l == NULL || e == NULL || found == NULL || pos == NULL) return KSI_INVALID_ARGUMENT;
+	m = sbl_of(l); k = m->n;
+	for (i = 0; i < SBV_MAX; i++) if (i < m->n && k == m->n && m->id[i] == e) k = i;
+	if (k < m->n) *pos = k;
+	*found = k < m->n ? 1 : 0;
+	return KSI_OK;
+}
+static int sbl_replaceAt(KSI_LIST(KSI_TLV) *l, size_t pos, KSI_TLV *e) {                                 /* list.c:188 */
+	struct sbl_list *m; size_t i; KSI_TLV *old = NULL;
+	if (l == NULL) return KSI_INVALID_ARGUMENT;
+	m = sbl_of(l);
+	if (!m->hasArray) return KSI_INVALID_STATE;
+	if (pos >= m->n) return KSI_BUFFER_OVERFLOW;
+	for (i = 0; i < SBV_MAX; i++) if (i == pos) old = m->id[i];
+	if (m->fn.obj_free != NULL) { g_sbl_elem_free_calls++; m->fn.obj_free(old); }
+	for (i = 0; i < SBV_MAX; i++) if (i == pos) m->id[i] = e;
+	return KSI_OK;
+}
+static void sbl_init(struct sbl_list *m, void (*obj_free)(KSI_TLV *)) {
+	size_t i;
+	m->fn.append = sbl_append; m->fn.removeElement = sbl_remove; m->fn.indexOf = NULL; m->fn.insertAt = NULL;
+	m->fn.replaceAt = sbl_replaceAt; m->fn.elementAt = sbl_elementAt; m->fn.length = sbl_length; m->fn.obj_free = obj_free;
+	m->fn.sort = NULL; m->fn.foldl = NULL; m->fn.pImpl = NULL; m->fn.find = sbl_find;
+	m->n = 0; m->hasArray = 0; m->growFails = 0; m->cap = 0; m->live = 1;
+	for (i = 0; i < SBV_MAX; i++) m->id[i] = NULL;
+}
+/* list.c:352 KSI_List_new (reached through KSI_TLVList_new of tlv.c): OUT_OF_MEMORY or a fresh empty list */
+int KSI_List_new(void (*obj_free)(void *), KSI_List **list) {
+	g_sbl_new_calls++;
+	if (nondet_bool()) return KSI_OUT_OF_MEMORY;
+	__CPROVER_assert(!g_sbl[1].live, "MACHINERY: one list is made on the way at most");
+	sbl_init(&g_sbl[1], (void (*)(KSI_TLV *))obj_free);
+	g_sbl[1].growFails = nondet_bool();
+	*list = (KSI_List *)&g_sbl[1].fn;
+	return KSI_OK;
+}
+/* list.c:335 KSI_List_free: only a list that is not attached to a TLV and holds nothing is ever released here */
+void KSI_List_free(KSI_List *list) {
+	if (list != NULL) {
+		struct sbl_list *m = sbl_of((KSI_LIST(KSI_TLV) *)list);
+		g_sbl_free_calls++;
+		__CPROVER_assert(m->live && m->n == 0, "only a live empty list is released by the surgery");
+		m->live = 0;
+	}
+}
+
+/* ---- assumed services ---------------------------------------------------------------------------------------------- */
 struct sbv_ghost {
-	/* KSI_TlvTemplate_construct */
 	unsigned construct_calls; int construct_res; const void *construct_tlv, *construct_payload, *construct_tmpl; unsigned construct_tag;
-	/* typed records */
 	unsigned cal_free_calls; const void *cal_freed; unsigned cal_ref_calls;
 	unsigned calauth_free_calls; const void *calauth_freed;
 	unsigned pub_free_calls; const void *pub_freed;
@@ -21,10 +130,8 @@ struct sbv_ghost {
 
 /* opaque typed records: only identity matters */
 struct KSI_CalendarHashChain_st { int dummy; };
-/* struct KSI_CalendarAuthRec_st: impl/signature_impl.h */
 struct KSI_PublicationRecord_st { int dummy; };
 
-unsigned KSI_TLV_getTag(const KSI_TLV *tlv);
 int KSI_TlvTemplate_construct(KSI_CTX *ctx, KSI_TLV *tlv, const void *payload, const KSI_TlvTemplate *tmpl) {
 	g_sbv.construct_calls++; g_sbv.construct_tlv = tlv; g_sbv.construct_payload = payload; g_sbv.construct_tmpl = tmpl;
 	g_sbv.construct_tag = KSI_TLV_getTag(tlv);
@@ -37,6 +144,73 @@ KSI_CalendarHashChain *KSI_CalendarHashChain_ref(KSI_CalendarHashChain *t) { if 
 void KSI_CalendarAuthRec_free(KSI_CalendarAuthRec *t) { if (t != NULL) { g_sbv.calauth_free_calls++; g_sbv.calauth_freed = t; } }
 void KSI_PublicationRecord_free(KSI_PublicationRecord *t) { if (t != NULL) { g_sbv.pub_free_calls++; g_sbv.pub_freed = t; } }
 void KSI_DataHash_free(KSI_DataHash *h) { if (h != NULL) g_sbv.foreign_free++; }
-/* raw payload reader: refuses (see header comment) */
 int KSI_FTLV_memRead(const unsigned char *m, size_t l, KSI_FTLV *t) { return KSI_INVALID_FORMAT; }
+
+/* ---- harness helpers: a signature object as the parser leaves it --------------------------------------------------- */
+static char s_ctx_store[8];
+#define S_CTX ((KSI_CTX *)(void *)s_ctx_store)
+static struct KSI_Signature_st s_sig;
+static struct KSI_CalendarHashChain_st s_oldcal, s_newcal;
+static struct KSI_CalendarAuthRec_st s_calauth;
+static struct KSI_PublicationRecord_st s_pub, s_newpub;
+static KSI_TLV *s_base, *s_kid[SB_MAX_CHILDREN];
+static int s_shape;                  /* 0: no base TLV, 1: children expanded, 2: empty payload, children not expanded */
+
+static void sbh_init_tlv(KSI_TLV *t, unsigned tag) {
+	t->ctx = S_CTX; t->isNonCritical = 0; t->isForwardable = 0; t->tag = tag; t->buffer_size = 0; t->buffer = NULL; t->nested = NULL;
+	t->datap = NULL; t->datap_len = 0; t->relativeOffset = 0; t->absoluteOffset = 0;
+}
+/* the view of the child list (identities from the model list, tags from the real TLV objects) */
+static void sbh_snapshot(KSI_TLV *base, sb_view *v) {
+	size_t i; struct sbl_list *m;
+	sbv_clear(v);
+	if (base == NULL || base->nested == NULL) return;
+	m = sbl_of(base->nested);
+	for (i = 0; i < SBV_MAX; i++) if (i < m->n) sbv_push(v, m->id[i], m->id[i]->tag);
+}
+/* base TLV 0x800 with n <= SB_MAX_CHILDREN children (heap objects) of arbitrary tags.  The typed fields mirror the children
+ * (calendarChain != NULL <=> a 0x802 child exists, ...): established by KSI_TlvTemplate_extract (C10.engine,
+ * C10.tables_signature) - precondition derived from the call sites (the surgery is only ever applied to a parsed clone). */
+static void sbh_make_signature(sb_view *old) {
+	size_t n = nondet_size(), i;
+	KSI_TLV *base = NULL;
+	memset(&g_sbv, 0, sizeof(g_sbv)); g_sbl_new_calls = 0; g_sbl_free_calls = 0; g_sbl_elem_free_calls = 0;
+	g_sbl[0].live = 0; g_sbl[1].live = 0;
+	s_sig.ctx = S_CTX; s_sig.ref = 1;
+	s_shape = nondet_int();
+	__CPROVER_assume(s_shape >= 0 && s_shape <= 2);
+	__CPROVER_assume(n <= SB_MAX_CHILDREN);               /* the stated bound of the job */
+	for (i = 0; i < SB_MAX_CHILDREN; i++) s_kid[i] = NULL;
+	if (s_shape != 0) {
+		base = malloc(sizeof(struct KSI_TLV_st)); __CPROVER_assume(base != NULL);
+		sbh_init_tlv(base, 0x800);
+		if (s_shape == 1) {
+			struct sbl_list *m = &g_sbl[0];
+			sbl_init(m, KSI_TLV_free);
+			m->growFails = nondet_bool();
+			if (nondet_bool()) { m->cap = 10; m->hasArray = 1; } else { m->cap = n; m->hasArray = n > 0; }
+			for (i = 0; i < SB_MAX_CHILDREN; i++) if (i < n) {
+				KSI_TLV *k = malloc(sizeof(struct KSI_TLV_st)); __CPROVER_assume(k != NULL);
+				sbh_init_tlv(k, nondet_uint());
+				__CPROVER_assume(k->tag <= 0x1fff);
+				s_kid[i] = k; m->id[i] = k;
+			}
+			m->n = n;
+			base->nested = &m->fn;
+		}
+	}
+	s_base = base; s_sig.baseTlv = base;
+	sbh_snapshot(base, old);
+	s_sig.calendarChain = sbv_count(old, SBV_TAG_CAL) > 0 ? &s_oldcal : NULL;
+	s_sig.calendarAuthRec = sbv_count(old, SBV_TAG_CAL_AUTH) > 0 ? &s_calauth : NULL;
+	s_sig.publication = sbv_count(old, SBV_TAG_PUB) > 0 ? &s_pub : NULL;
+}
+/* ownership: everything still in the view is released by the harness now; what left the view must have been released by the
+ * code under test (else --memory-leak-check fires), and nothing in the view may have been released (else double free). */
+static void sbh_release(const sb_view *now, const void *fresh) {
+	size_t i;
+	for (i = 0; i < SB_MAX_CHILDREN; i++) if (s_kid[i] != NULL && sbv_contains(now, s_kid[i])) free(s_kid[i]);
+	if (fresh != NULL && sbv_contains(now, fresh)) free((void *)fresh);
+	if (s_base != NULL) free(s_base);
+}
 #endif
